@@ -193,6 +193,16 @@ func (g *Gen) qer(id uint32, gbr bool) pfcpx.QER {
 		q.DLGBR = 1 + uint64(g.R.Int63n(int64(q.DLMBR)))
 	} else {
 		q.NoGBR = g.R.Intn(2) == 0
+
+		// rates present in one direction only, or in none (unmetered)
+		switch g.R.Intn(8) {
+		case 0:
+			q.ULMBR = 0
+		case 1:
+			q.DLMBR = 0
+		case 2:
+			q.ULMBR, q.DLMBR = 0, 0
+		}
 	}
 
 	return q
